@@ -26,6 +26,10 @@ pub struct ConnWorld {
 }
 
 /// Connect a bare Connection to the scripted peer. Runs entirely on the paused clock.
+thread_local! { static CONN_TIMEOUT: std::cell::Cell<Option<std::time::Duration>> = const { std::cell::Cell::new(None) }; }
+/// The I/O timeout the next connection worlds of this thread are configured with (None = the library's default).
+pub fn set_conn_timeout(t: Option<std::time::Duration>) { CONN_TIMEOUT.with(|c| c.set(t)); }
+
 pub async fn conn_world(ctx: &WorkerCtx, our_flags: u64, peer_flags: u64) -> Result<ConnWorld, String> {
     conn_world_with(ctx, our_flags, peer_flags, &[]).await
 }
@@ -33,7 +37,8 @@ pub async fn conn_world(ctx: &WorkerCtx, our_flags: u64, peer_flags: u64) -> Res
 /// As `conn_world`, with `after_ack` written in the same segment as the peer's challenge acknowledgement.
 pub async fn conn_world_with(ctx: &WorkerCtx, our_flags: u64, peer_flags: u64, after_ack: &[u8]) -> Result<ConnWorld, String> {
     let w = World::new(ctx.heartbeat.clone(), &ctx.listeners).await;
-    let cfg = ConnectionConfig::new("me@127.0.0.1", PEER_NAME, COOKIE).with_epmd_host("127.0.0.1").with_flags(DistributionFlags::new(our_flags));
+    let mut cfg = ConnectionConfig::new("me@127.0.0.1", PEER_NAME, COOKIE).with_epmd_host("127.0.0.1").with_flags(DistributionFlags::new(our_flags));
+    if let Some(t) = CONN_TIMEOUT.with(|c| c.get()) { cfg = cfg.with_timeout(t); }
     let mut conn = Connection::new(cfg);
     let h = tokio::spawn(async move { let r = conn.connect().await; (conn, r) });
     let mut peer = w.accept_peer().await.ok_or("library never connected to the peer")?;
